@@ -27,6 +27,7 @@ KIND_TEXT = {
     "KRelMode": "lock released in the wrong mode", "KRelNotHeld": "release of a lock that is not held", "KRelUndeclared": "release of an undeclared lock",
     "KUnguardedRead": "unguarded read of", "KUnguardedWrite": "unguarded write of", "KImmutableWrite": "write of an immutable field outside a constructor:",
     "KCallback": "callback runs under a lock it may acquire:",
+    "KCheckThenAct": "check-then-act: written in one critical section on the strength of a read made in an earlier, released critical section of the same lock (not re-read):",
     "KLockOrder": "acquired (or callee / callback that acquires it reached) while a lock of equal or higher rank is held:", "KCallRequires": "call without the locks the callee requires:",
     "KCallHolding": "call while holding a lock the callee (or a callback / goroutine it reaches) acquires:",
     "KCalleeUndeclared": "callee acquires a lock missing from the caller's acquires entry:",
@@ -72,9 +73,9 @@ def _compile_obligation(ctx, d, fname):
     thms = re.findall(r"^(?:Theorem|Corollary)\s+(\w+)", text, re.M)
     rc, out = V.coqc(fname, d, extra=["-R", d, ""])
     complaints = []
-    if "complaints =" in out:
-        body = out.split("complaints =", 1)[1].split("\n     :", 1)[0]
-        complaints = [(a, k, s.replace('""', '"')) for a, k, s in _TRIPLE.findall(re.sub(r"\s+", " ", body))]
+    for blk in re.split(r"(?m)^(?:cta_)?complaints =", out)[1:]:
+        body = blk.split("\n     :", 1)[0]
+        complaints += [(a, k, s.replace('""', '"')) for a, k, s in _TRIPLE.findall(re.sub(r"\s+", " ", body))]
     return rc == 0, complaints, thms, out
 
 
@@ -655,7 +656,7 @@ def _conch_cases(ctx, part):
     d = os.path.join(ctx.work, "conch-out")
     os.makedirs(d, exist_ok=True)
     args = [binp, "-out", d, "-cases", "300" if ctx.tier == "quick" else "12000", "-ops", "12" if ctx.tier == "quick" else "14",
-            "-sends", "8" if ctx.tier == "quick" else "12"]
+            "-sends", "8" if ctx.tier == "quick" else "12", "-fresh", "1500" if ctx.tier == "quick" else "20000"]
     corpus = os.path.join(V.VERIF, "corpus", "C04", "conch.jsonl")
     if os.path.exists(corpus):
         args += ["-corpus", corpus]
@@ -697,6 +698,8 @@ def _conch_cases(ctx, part):
         n = sum(len(t) for t in c["threads"])
         if kind not in by_kind or n < by_kind[kind][0]:
             by_kind[kind] = (n, int(cid), int(step))
+    ctx._conch_failing = [{"engine": "conch", "signature": kind, "meaning": CKIND_TEXT.get(kind, kind), "case": cases[cid], "observed_case_literal": lits.get(cid)}
+                          for kind, (n, cid, step) in sorted(by_kind.items())]
     for kind, (n, cid, step) in sorted(by_kind.items()):
         rp = V.write_replay(ctx, "conch-" + kind, {
             "kind": "correspondence", "engine": "conch", "theorem_or_correspondence": "Run_Conc.mismatches (delivery bounds of ConcProofs.send_delivery_bounds / linearizability against Broker.step)",
@@ -768,7 +771,14 @@ def check_C04(ctx):
     ctx.coverage["parts"]["concurrent-histories(-race)"] = rpart
     reports = _conch_race(ctx, rpart, st["info"])
     if st["dir"]:
-        report_static(ctx, "C04", st, _race_evidence(reports, "conch", st["info"]))
+        race_ev = _race_evidence(reports, "conch", st["info"])
+
+        def evidence(group):
+            ev = race_ev(group)
+            if ev is None and any(k == "KCheckThenAct" for _, k, _ in group["members"]) and getattr(ctx, "_conch_failing", None):
+                ev = ctx._conch_failing[0]      # an atomicity defect shows as a delivery / linearizability mismatch, not as a race
+            return ev
+        report_static(ctx, "C04", st, evidence)
     explained = set(t for g in st["groups"] for t in g["tokens"])
     broken = any(not g.get("is_known") for g in st["groups"])
     by_tok, ignored = report_races(ctx, "C04", [r for r in reports if r["token"] not in explained], is_broker_field, broken)
